@@ -15,7 +15,7 @@ def all_datagrams(maxlen, alphabet):
 
 class C09(C01):
     ident = "C09"
-    extra_bins = ("c09port", "c09http", "c01cfg")
+    extra_bins = ("c09port", "c09http", "c01cfg", "c09out")
     technique = "Coq proof: classification total, monitor never reaches the internal-error path, TID non-interference; extracted-model correspondence"
     rule = ("transfer part: every datagram of length <= 4 (quick) / 5 (thorough) over {0,1,2,3,4,5,6,8,9,0x61,0xff} injected from "
             "the peer and from foreign addresses (other port, other host, and source port 0 whose ERROR 5 reply cannot be sent) at three points of a transfer (OACK outstanding, first block outstanding, last "
@@ -69,7 +69,7 @@ class C09(C01):
         return (tuple(c["events"]), tuple(c["options"]))
 
     def match_known(self, entry, case, failed):
-        # D22: reply to a requester with source port 0 cannot be sent; the catch-all logs the OSError
+        # no known (unrepaired) finding of the request port (D22 was repaired by 7078de3)
         import c09_port
         return c09_port.match_known(entry, case, failed)
 
@@ -86,6 +86,10 @@ class C09(C01):
         # the limits the transfers are created with (an over-large max_block_size ends in EMSGSIZE on the wire)
         import c01_cfg
         c01_cfg.cfg_checks(tier, rng, report)
+        # what the transfer thread does with the handler's result (TftpError -> one ERROR packet, not logged as an
+        # exception; other exception -> one ERROR 0; stream -> transfer): Tftp/HandlerOutcome.v
+        import c09_outcome
+        c09_outcome.outcome_checks(tier, rng, report)
 
 
 if __name__ == "__main__":
